@@ -27,7 +27,7 @@ fn width_of(v: SupportedScalar) -> Option<(usize, usize)> {
         SupportedScalar::I128(_) | SupportedScalar::U128(_) => 16,
         SupportedScalar::Empty() => 0,
     };
-    let s = ScalarValue { value: Some(v), type_ident: debugger::debugee::dwarf::r#type::TypeIdentity::unknown(), type_id: None, raw_address: Some(0x1000) };
+    let s = ScalarValue { value: Some(v), type_ident: Default::default(), type_id: None, raw_address: Some(0x1000) };
     let meta = scalar_meta(&s, 0x1000);
     core::mem::forget(s);
     match meta {
